@@ -83,6 +83,7 @@ parseattr(struct attr *a, enum attrkind allowed, enum attrprefix prefix)
 			switch (tok.kind) {
 			case TLPAREN: ++paren; break;
 			case TRPAREN: --paren; break;
+			case TEOF: error(&tok.loc, "end of file in attribute arguments");
 			}
 		}
 	}
